@@ -115,6 +115,10 @@ def safe_get(obj, instance, owner):
 def iter_call(obj):
     while True:
         yield obj
+        if isinstance(obj, type):
+            # a class's __call__ attribute is what its instances do when
+            # called; calling the class itself runs its constructor
+            return
         try:
             obj = obj.__call__
             obj.__code__.co_filename
